@@ -199,11 +199,11 @@ NOT_YET = {}
 ADDED = {
     'C01': 'A program whose result differs between the reused and a brand-new Interpreter is a violation (one Interpreter evaluates all build files of a project); every program has a wall-clock and memory budget. Family X6: one statement executed several times (loop, twice, nested loop) with variables that change in between. Rounds 8-9: the method table takes every integer boundary of every receiver length and boolean keyword values; a program whose value is unspecified must still not end in a Python traceback. Rounds 10-11: placeholder-like strings as format() arguments. Round 12: family X7 - identifiers spelled with a keyword as prefix or suffix (installed, notx, order, xin, ...) at every operand position of every operator and unary prefix, with 1 / 2 blanks or a tab after \'not\', in ternaries, if / elif conditions and as loop variables. Round 13: family X8 - every kind of value, the empty ones (0, false, \'\', [], {}) first, stored in a dict / array / variable and read back through every read path (get with each fallback, indexing, in, contains, values, foreach, get_variable with fallback, ternary, comparison); dictionary keys that are names meson itself uses (kwargs, args, required ...), literal and through a variable.',
     'C02': 'Gaps part: 10 kinds of trivia in every gap and pair of gaps of 10 skeleton statements. Pairs part: every ordered pair of 14 texts parsed in one brand-new interpreter, the second verdict compared with the text parsed alone. Rounds 8-9: scale part - escape sequences that need a lookup (N{..}, U beyond Unicode) in every string kind, digit runs up to 20000 digits in every base, 12 nesting forms x depths up to 5000 (closed, open, half closed) and 13 chain forms x lengths up to 20000. Round 12: the blocks family - every nesting (depth <= 2, thorough 3) of the five block forms, the inner block in every clause body, every trivia in every gap and every pair of line-end boundaries over one trivia of each nature (two closers on one line, no final newline).',
-    'C03': 'test(workdir:); every sequence of <= 3 add_project_(link_)arguments / add_global_(link_)arguments calls over the language sets {c}, {cpp}, {c, cpp}: which language receives which argument, compile and link. Pairs of wrapped commands whose argument lists differ only in where the boundaries fall; generator extra_args positions; every test again under a test setup with a transparent exe_wrapper. Rounds 8-9: targets mixing C and C++ sources with per-language target arguments (both source orders); every spelling of env: (dict, list of NAME=value strings, environment() from dict / list / set()); 34 placeholder spellings (documented ones and near-misses) as generator / custom_target arguments: configuration terminates without traceback and documented spellings are substituted. Rounds 10-11: environment() methods (set / append / prepend x separator) against a variable already set where the command runs, in a source directory whose name holds \'=\'; test() / benchmark() arguments that are built targets, files or programs at every position among strings. Round 12: reconfigure histories (every ordered pair of 16 command definitions: configure with A, edit to B, reconfigure, run the statement) and sibling targets (same command line, different environments, one configuration) through the pickled wrapper. Round 13: every documented placeholder of custom_target / run_target / generator between every context of <= 2 (thorough 3) literal atoms of {@, u, :} on either side; the literal text must arrive unchanged around the value of the placeholder.',
-    'C04': 'A unity family, and a tests family (6 ways a test can refer to something built x program/args/nested args/depends, tests and benchmarks) for meson-test-prereq. One generator list shared by consumer sequences of length 2-3; a project mixing statements above and below the response-file threshold; output clashes in first/middle/last position of a multi-output statement; an optional subproject that fails after declaring tests / targets / install rules (nothing of it may remain). Rounds 8-9: linkkinds (5 provider kinds x 5 consumer kinds x 6 link relations x layout/default_library), bsubdir (6 kinds of things placed with build_subdir: and 2 without x 12 consuming positions x layout x placement), aliasrun (alias targets over run/alias/custom targets at top level, in (nested) subprojects and their subdirs), self-cycle collision cases, and the shape families of C05 (link chains, partial dependencies, shared generated lists, precompiled headers, generators with depends:). Rounds 10-11: a colon in target names; C / Fortran language assignments in the linkkinds family (dependency-scanner statements); preprocess(depends:) as a consumer in the bsubdir family. Round 12: the inplace family (custom targets whose output path may be the path of something they read: what is read x where x spelling of output: incl. @PLAINNAME@ / @BASENAME@ x place x layout) and assembly sources in the unity family. Round 13: targets without a single source in the source tree (own C file made by a custom target / generator()), alone, with generated headers, precompiled headers and linked libraries; generators whose depends: names a built executable, directly or as an overridden find_program().',
-    'C05': 'generator()-made headers and 59 link chains of 3-5 targets (header two or three link levels away from its user); generators with depends: and several inputs; a dependency listed after its own partial_dependency(); precompiled headers that include generated headers. Rounds 10-11: unitymix (unity builds of targets mixing plain and generated C / C++ sources x unity_size x source order) and preprocess (compiler.preprocess over generated files of any name, through depends: and through declare_dependency(sources:)) families, explored like every generated project. Round 12: the ctlib family - libraries made by custom targets (4 producer shapes x 6 relations x consumer kinds x build_by_default) and the clause that a library the manual says is linked is named on a link line. Round 13: the same all-generated-sources shapes and generator depends: on a built executable / overridden find_program() result, explored like every other project.',
+    'C03': 'test(workdir:); every sequence of <= 3 add_project_(link_)arguments / add_global_(link_)arguments calls over the language sets {c}, {cpp}, {c, cpp}: which language receives which argument, compile and link. Pairs of wrapped commands whose argument lists differ only in where the boundaries fall; generator extra_args positions; every test again under a test setup with a transparent exe_wrapper. Rounds 8-9: targets mixing C and C++ sources with per-language target arguments (both source orders); every spelling of env: (dict, list of NAME=value strings, environment() from dict / list / set()); 34 placeholder spellings (documented ones and near-misses) as generator / custom_target arguments: configuration terminates without traceback and documented spellings are substituted. Rounds 10-11: environment() methods (set / append / prepend x separator) against a variable already set where the command runs, in a source directory whose name holds \'=\'; test() / benchmark() arguments that are built targets, files or programs at every position among strings. Round 12: reconfigure histories (every ordered pair of 16 command definitions: configure with A, edit to B, reconfigure, run the statement) and sibling targets (same command line, different environments, one configuration) through the pickled wrapper. Round 13: every documented placeholder of custom_target / run_target / generator between every context of <= 2 (thorough 3) literal atoms of {@, u, :} on either side; the literal text must arrive unchanged around the value of the placeholder. Round 14: custom targets with 0-2 inputs and 1-2 outputs in the embedded-placeholder family, statements of different shapes interleaved.',
+    'C04': 'A unity family, and a tests family (6 ways a test can refer to something built x program/args/nested args/depends, tests and benchmarks) for meson-test-prereq. One generator list shared by consumer sequences of length 2-3; a project mixing statements above and below the response-file threshold; output clashes in first/middle/last position of a multi-output statement; an optional subproject that fails after declaring tests / targets / install rules (nothing of it may remain). Rounds 8-9: linkkinds (5 provider kinds x 5 consumer kinds x 6 link relations x layout/default_library), bsubdir (6 kinds of things placed with build_subdir: and 2 without x 12 consuming positions x layout x placement), aliasrun (alias targets over run/alias/custom targets at top level, in (nested) subprojects and their subdirs), self-cycle collision cases, and the shape families of C05 (link chains, partial dependencies, shared generated lists, precompiled headers, generators with depends:). Rounds 10-11: a colon in target names; C / Fortran language assignments in the linkkinds family (dependency-scanner statements); preprocess(depends:) as a consumer in the bsubdir family. Round 12: the inplace family (custom targets whose output path may be the path of something they read: what is read x where x spelling of output: incl. @PLAINNAME@ / @BASENAME@ x place x layout) and assembly sources in the unity family. Round 13: targets without a single source in the source tree (own C file made by a custom target / generator()), alone, with generated headers, precompiled headers and linked libraries; generators whose depends: names a built executable, directly or as an overridden find_program(). Round 14: generator inputs in nested directories processed with preserve_path_from:.',
+    'C05': 'generator()-made headers and 59 link chains of 3-5 targets (header two or three link levels away from its user); generators with depends: and several inputs; a dependency listed after its own partial_dependency(); precompiled headers that include generated headers. Rounds 10-11: unitymix (unity builds of targets mixing plain and generated C / C++ sources x unity_size x source order) and preprocess (compiler.preprocess over generated files of any name, through depends: and through declare_dependency(sources:)) families, explored like every generated project. Round 12: the ctlib family - libraries made by custom targets (4 producer shapes x 6 relations x consumer kinds x build_by_default) and the clause that a library the manual says is linked is named on a link line. Round 13: the same all-generated-sources shapes and generator depends: on a built executable / overridden find_program() result, explored like every other project. Round 14: the same preserve_path_from shapes; pchmix projects (a target of a C and a C++ source with precompiled headers for C / C++ / both x target kind x source order x generated header in the precompiled one).',
     'C06': 'The RICH project runs compiler checks (supported arguments, has_header, sizeof) whose results feed config.h and project arguments; a pch target with five generated headers. Rounds 8-9: build-directory placement (sibling / nested / nested twice / far; absolute and relative) for projects that write and read files in the build directory (5 writers x 6 readers x before/after), run outside /dev/shm; stale directories in the build directory; machine files from regular files and pipes; CRLF / lone-CR templates in RICH. Rounds 10-11: a wraps project (wrap directory differs from wrap name, lookups by both names) in the full product; install_subdir with several excluded names and install_data with mixed implicit tags in RICH; an earlier-data-version history (same names, sizes and time stamps, other contents). Round 12: earlier-revision histories (one elementary edit - insert / delete / swap / retype at every position - of the option file, the subproject\'s option file or the statements of meson.build, then reconfigure, against a fresh configuration) and the dependency manifest under the mtime clause. Round 13: earlier-options histories (12 option vectors incl. 6 orders / subsets / duplicates of two dependency search-path directories that provide one package with different flags; brought to the present vector by setup --reconfigure -D or meson configure + regeneration, against a fresh configuration) and the list of further project() languages in the earlier-revision family.',
-    'C07': 'A yielding option against a parent option of every other kind. Part R: 49 re-declarations of an option (integer bounds, combo / array choices, type) with a stored value, get_option and configure -D afterwards. The prefix decoy with every source of the top-level prefix. Part P: 48 command histories pinning a subproject value (also equal to the inherited one) before the parent value changes. Rounds 8-9: the spelling of a command-line entry (-Dname=value, --name=value, --name value, bare switch) as a dimension of the top-level, subproject, per-machine, prefix, invalid-value and buildtype families, for meson setup and meson configure. Rounds 10-11: spellings of a prefix value (trailing slashes, /., doubled slash) for every source and meson configure; malformed array values; backend options; the declared default as a dimension (absent, and every falsy explicit value) for top-level / subproject-only / shadowing / yielding options; part K (a buildtype equal to the one in effect); subproject-addressed prefix. Round 12: the machine-file source given as 2 (thorough 3) layers - every placement of every pair of 8 options over the layers, composition rule from Machine-files.md, through parse_machine_files and repeated --native-file / --cross-file. Round 13: late booleans whose documented default is true (b_staticpic, b_lundef) and empty / wrongly typed values for every late option (base, compiler, backend).',
+    'C07': 'A yielding option against a parent option of every other kind. Part R: 49 re-declarations of an option (integer bounds, combo / array choices, type) with a stored value, get_option and configure -D afterwards. The prefix decoy with every source of the top-level prefix. Part P: 48 command histories pinning a subproject value (also equal to the inherited one) before the parent value changes. Rounds 8-9: the spelling of a command-line entry (-Dname=value, --name=value, --name value, bare switch) as a dimension of the top-level, subproject, per-machine, prefix, invalid-value and buildtype families, for meson setup and meson configure. Rounds 10-11: spellings of a prefix value (trailing slashes, /., doubled slash) for every source and meson configure; malformed array values; backend options; the declared default as a dimension (absent, and every falsy explicit value) for top-level / subproject-only / shadowing / yielding options; part K (a buildtype equal to the one in effect); subproject-addressed prefix. Round 12: the machine-file source given as 2 (thorough 3) layers - every placement of every pair of 8 options over the layers, composition rule from Machine-files.md, through parse_machine_files and repeated --native-file / --cross-file. Round 13: late booleans whose documented default is true (b_staticpic, b_lundef) and empty / wrongly typed values for every late option (base, compiler, backend). Round 14: setup --wipe family in the end-to-end tier (9 options x given / not given at the first setup x wipe with the same option / nothing / another option / twice).',
     'C08': 'Commands that make an override equal to the value it overrides; an integer option whose bounds are edited; the empty string as a value; setup --wipe together with -D. Rounds 8-9: a second root (setup -Dsub2:o=p1) and a subproject that an option switches on (use2): values given before a subproject is first configured. Rounds 10-11: edits of the subproject option file (9 variants incl. deletion), own values of the yielding combo (-Dsub:c / -Usub:c), a third root giving the own value at the first setup. Round 13: composite option-file edits (rename, swap for another type, remove one + add two; top-level and subproject file; first seen by reconfigure or by a meson configure of another option) between 6 pre and 6 (thorough 11) post steps.',
     'C09': 'A history whose values come from a native file; after every recovery the next commands (configure -D, reconfigure, thorough: wipe) must work and keep the values. Rounds 8-9: the language-less project also with the ninja backend (quick: the commands that write the manifest); after the recovery build.ninja must be a valid manifest for the reference reader. Rounds 10-11: a build directory whose name holds glob characters; a machine file that arrives through a pipe, as history and in setup --wipe --native-file <pipe>. Round 12: a Fortran project with the ninja backend (the backend\'s per-target scan data) for first setup and reconfigure.',
     'C10': 'Injected I/O answers during the overlay copy (n-th copy fails) and for the patch program (cannot start); the following run without fault must prepare the subproject completely. Part (d): two wraps of one configuration naming the same archive file, which matches only the first wrap\'s hash. History part: the decision table again after the build directory was first configured under another (wrap_mode, force_fallback_for). Round 12: the already-configured-subproject cells specified from the candidate order (no longer skipped) and split by how the subproject was configured (subproject() / fallback of another lookup) and named (fallback: / wrap provide). Round 13: lookups with 2 (thorough 3) names - every name absent / on the system (low or high version) / provided by the wrap / overridden - x constraint x subproject version x required x allow_fallback x wrap_mode x force_fallback_for, each followed by an optional lookup of every single name (same dependency); 4 spellings of the name (capitals, punctuation) x {wrap provide, fallback: [s, var], fallback: \'s\'}.',
@@ -211,7 +211,7 @@ ADDED = {
     'C12': '--slice over every subset of 8 tests, 3 of them non-parallel; fractional --timeout-multiplier values. Rounds 8-9: family M, 255..257 (thorough ..512) bad results in one run through --repeat; the exit status is judged as the one byte the parent process sees. Round 12: selection by name - a build with non-unique test names, all argument sequences <= 2 (thorough 3) over 48 documented spellings through the real selection and 32 through the real command line; family R, the rust protocol under every exit status. Round 14: tests without a limit (timeout: <= 0 in the build definition; --timeout-multiplier <= 0) as configurations of the schedule exploration.',
     'C13': 'An absolute library path through append_direct/extend_direct, alone and in two-element batches with every other argument; bare options with a separate operand (-isystem DIR, -D FOO). Rounds 8-9: two-object histories (10 binary operations whose operand is another argument-list object in every state, followed by one more operation) and sequence-protocol reads (reversed, indexing, slices) with pending queues. Rounds 10-11: the argument-list class (C-like, base, D) as a dimension of every part, kinds read from the class tables. Round 12: the name shape of a library file as a dimension (6 locations x 11 names incl. versioned shared libraries) and equality reads on pairs of histories.',
     'C14': '30 fragments (non-ASCII names, #cmakedefine with a ${} tail); the file slice renders each data set over the output of the previous one, and in three more encodings. Rounds 8-9: form feed and U+2028 as fragments (characters str.splitlines() breaks at). Rounds 10-11: nested cmake references (names built from ${..} / @..@) specified from CMake\'s documentation, names family; directive spellings (blanks around # and the keyword) compared on (kind, name, value); reference calibrated against the installed cmake. Round 12: the value-names family (sequences <= 4 over 11 fragments x 45 data sets whose values name bound, unbound and self names), words that merely begin with a directive, and hang detection by CPU time with confirmation.',
-    'C15': 'The same comparisons after setup --reconfigure (twice); an install project with every installable kind x 8 spellings of the install directory; yielding options given their own value; files read through fs / keyval before and after a subproject, compared with the REGENERATE_BUILD dependencies. Rounds 8-9: intro-tests/benchmarks depends (and programs in the build directory) against what meson-test-prereq / meson-benchmark-prereq build; every target kind with build_subdir: at root / in a subdir under both layouts; optional subprojects that fail (error, missing dependency, in a subdir, syntax error) in the reads family. Rounds 10-11: configured sources, LLVM IR sources, custom targets consuming files / whole targets / indexed outputs: the sources introspection lists against the inputs of the statements. Round 12: unity builds are no longer exempt from the sources comparison; a unity family (1 / 4 / 5 / 9 sources, two languages, a generated source; unity_size default and 2; per-subproject unity; flat layout). Round 13: an install-names project - every install function with every documented keyword that changes the name under which a file is installed (install_man locale:, rename:, preserve_path:, strip_directory:, name_prefix / name_suffix / version / soversion, per-output install_dir).',
+    'C15': 'The same comparisons after setup --reconfigure (twice); an install project with every installable kind x 8 spellings of the install directory; yielding options given their own value; files read through fs / keyval before and after a subproject, compared with the REGENERATE_BUILD dependencies. Rounds 8-9: intro-tests/benchmarks depends (and programs in the build directory) against what meson-test-prereq / meson-benchmark-prereq build; every target kind with build_subdir: at root / in a subdir under both layouts; optional subprojects that fail (error, missing dependency, in a subdir, syntax error) in the reads family. Rounds 10-11: configured sources, LLVM IR sources, custom targets consuming files / whole targets / indexed outputs: the sources introspection lists against the inputs of the statements. Round 12: unity builds are no longer exempt from the sources comparison; a unity family (1 / 4 / 5 / 9 sources, two languages, a generated source; unity_size default and 2; per-subproject unity; flat layout). Round 13: an install-names project - every install function with every documented keyword that changes the name under which a file is installed (install_man locale:, rename:, preserve_path:, strip_directory:, name_prefix / name_suffix / version / soversion, per-output install_dir). Round 14: a plan entry of an installed subdirectory must locate every file of the source directory at <destination>/<relative path>.',
     'C16': 'indent_by = \'\'; end_of_line taken from .editorconfig in the CLI part; several files in one invocation (list and --recursive). Rounds 8-9: @, quote, backslash and newline in 7 spellings (literal, one-letter, octal, x, u, U, N{}) x 4 string kinds with bodies <= 3, the same literals in 6 contexts, 274 characters in comments, continuation before the end of the file. Rounds 10-11: options part - every documented formatter option as a dimension of a family whose inputs can trigger it, with a counter of cases where the option changes the output.',
     'C19': 'version_check_to_range must leave its start argument unchanged. Rounds 8-9: white space before the operator and after the version of a constraint. Round 12: the featurerange part - every if / elif / else chain of <= 2 (thorough 3) clauses over constants and 6 shapes of version condition x declared ranges through the real meson setup: a block that some version of the declared range older than the feature runs must get the FeatureNew warning. Round 14: feature-sites family - every sequence of <= 2 (thorough 3) feature use sites over 5 guards x 2 features of different age x declared ranges (last site in the same file or a subdir() file); every site that a too-old version of the declared range runs must be named by its own FeatureNew warning.',
     'C17': 'Layer-B project line with entries that merely contain an addressed name; two source arrays on one line; info / edit / info in one run. Rounds 8-9: layer C - two targets, 11 name classes (only in the other list, in both lists, in the other target, nowhere ...) x 30 ways of writing sources / extra_files x the 4 list operations with single names and pairs, observed per list. Rounds 10-11: layer D (target and its lists spread over root / parent / sibling build files, files named from the source root, named files must exist on disk) and layer E (the target call in 11 syntactic positions). Round 14: add_target for target names over the documented character set (dot, plus, at, leading digit, dash and space).',
